@@ -273,6 +273,8 @@ def make_specs(segs):
             ok = False
     if ok:
         out.append(('t', t))
+    # the same path rooted at a scope value: Path(S, 'root', <parts>) evaluated with scope={'root': graph}
+    out.append(('s-rooted', Path(glom.S, 'root', *parts)))
     return out
 
 
@@ -308,7 +310,11 @@ def check_read(recipe, ctx):
         where = 'spelling=%s path=%r graph=%r' % (name, segs, g)
         b.log.reset()
         try:
-            got = ('ok', glom.glom(g, spec))
+            if name == 's-rooted':
+                ctx.label('s-rooted')
+                got = ('ok', glom.glom({'unrelated': 1}, spec, scope={'root': g}))
+            else:
+                got = ('ok', glom.glom(g, spec))
         except PathAccessError as e:
             got = ('err', e)
         except tg.BudgetExceeded as e:
